@@ -118,11 +118,16 @@ Proof. induction a; [reflexivity|]. cbn [length app firstn]. f_equal. assumption
 
 Lemma feed_block_rest r mx name chunk : rec_wf r -> (length name <= 256)%nat -> Forall rowchar chunk ->
   let r' := feed_line r (skipn (length name) (block_line mx name chunk)) in
-  rec_wf r' /\ row_of r' = row_of r ++ chunk /\ rr_name r' = rr_name r.
+  rec_wf r' /\ row_of r' = row_of r ++ chunk /\ rr_name r' = rr_name r /\ rr_res r' = rr_res r ++ filter isalpha chunk.
 Proof.
   intros W L G. cbv zeta. rewrite block_line_split by exact L. rewrite skipn_app_exact.
-  destruct (feed_line_row (repeat space (mx + 5 - length name) ++ chunk) r W) as (A & B & C & _).
-  split; [exact A|split; [|exact C]]. rewrite B, norm_app, norm_spaces, norm_rowchars by exact G. reflexivity.
+  destruct (feed_line_row (repeat space (mx + 5 - length name) ++ chunk) r W) as (A & B & C & D).
+  split; [exact A|split; [|split; [exact C|]]].
+  - rewrite B, norm_app, norm_spaces, norm_rowchars by exact G. reflexivity.
+  - rewrite D, filter_app. f_equal.
+    assert (E : forall k, filter isalpha (repeat space k) = []).
+    { induction k as [|k IH]; [reflexivity|]. cbn [repeat filter]. unfold space at 1. rewrite space_not_alpha. exact IH. }
+    rewrite E. reflexivity.
 Qed.
 
 (* read_clu's name end: the first blank within the first 255 bytes *)
@@ -143,9 +148,9 @@ Definition row_ok (nr : list Z * list Z) : Prop :=
 
 (* a record before / after block b has been read into it *)
 Definition pre_slot (b : nat) (r : rrec) (nr : list Z * list Z) : Prop :=
-  rec_wf r /\ row_of r = firstn (60 * b) (snd nr).
+  rec_wf r /\ row_of r = firstn (60 * b) (snd nr) /\ rr_res r = filter isalpha (firstn (60 * b) (snd nr)).
 Definition slot (b : nat) (r : rrec) (nr : list Z * list Z) : Prop :=
-  rec_wf r /\ rr_name r = fst nr /\ row_of r = firstn (60 * b) (snd nr).
+  rec_wf r /\ rr_name r = fst nr /\ row_of r = firstn (60 * b) (snd nr) /\ rr_res r = filter isalpha (firstn (60 * b) (snd nr)).
 
 Lemma line_shape b nr : row_ok nr ->
   line_of mx alnlen b nr = fst nr ++ 32 :: (repeat space (mx + 4 - length (fst nr)) ++ chunk_of alnlen b (snd nr)).
@@ -185,7 +190,7 @@ Proof.
       - inversion Hs as [|r ? rs ? Hr Hrs']; subst. exists r, rs. split; [|split; [exact Hr|left; exact Hrs']].
         rewrite pad_recs_eq. rewrite app_length. cbn [length].
         destruct (Nat.ltb_spec (length recs_pre + S (length rs)) (S (length recs_pre))); [lia|reflexivity].
-      - exists (empty_rec []), []. split; [|split; [split; reflexivity|right; split; reflexivity]].
+      - exists (empty_rec []), []. split; [|split; [split; [reflexivity|split; reflexivity]|right; split; reflexivity]].
         rewrite pad_recs_eq, app_nil_r.
         destruct (Nat.ltb_spec (length recs_pre) (S (length recs_pre))); [|lia].
         replace (S (length recs_pre) - length recs_pre)%nat with 1%nat by lia. reflexivity. }
@@ -194,16 +199,17 @@ Proof.
     rewrite Hpad, update_nth_app.
     set (r1 := feed_line _ _).
     assert (Hr1 : slot (S b) r1 nr).
-    { destruct Hr as (W & R).
+    { destruct Hr as (W & R & RS).
       pose proof (feed_block_rest (mkRR (fst nr) (rr_res r) (rr_gaps r)) mx (fst nr) (chunk_of alnlen b (snd nr))) as F.
       rewrite block_line_split, skipn_app_exact in F by lia.
       replace (mx + 5 - length (fst nr))%nat with (S (mx + 4 - length (fst nr))) in F by lia.
       specialize (F W ltac:(lia) (chunk_rowchars alnlen b (snd nr) Hgood)). cbv zeta in F.
       assert (E : r1 = feed_line (mkRR (fst nr) (rr_res r) (rr_gaps r))
                          (repeat space (S (mx + 4 - length (fst nr))) ++ chunk_of alnlen b (snd nr))) by reflexivity.
-      rewrite E. destruct F as (F1 & F2 & F3). split; [exact F1|split; [exact F3|]].
-      rewrite F2. change (row_of (mkRR (fst nr) (rr_res r) (rr_gaps r))) with (row_of r). rewrite R.
-      symmetry. apply chunk_step. exact Hlen. }
+      rewrite E. destruct F as (F1 & F2 & F3 & F4). split; [exact F1|split; [exact F3|split]].
+      - rewrite F2. change (row_of (mkRR (fst nr) (rr_res r) (rr_gaps r))) with (row_of r). rewrite R.
+        symmetry. apply chunk_step. exact Hlen.
+      - rewrite F4. cbn [rr_res]. rewrite RS, <- filter_app. f_equal. symmetry. apply chunk_step. exact Hlen. }
     destruct (IH (recs_pre ++ [r1]) rs (count_line h (32 :: repeat space (mx + 4 - length (fst nr)) ++ chunk_of alnlen b (snd nr))) Hok' Hrs)
       as (recs'' & h'' & Hf & Hall).
     rewrite app_length in Hf. cbn [length] in Hf. rewrite <- app_assoc in Hf. cbn [app] in Hf.
@@ -231,7 +237,7 @@ Lemma Forall2_imp {A B} (P Q : A -> B -> Prop) : (forall x y, P x y -> Q x y) ->
 Proof. intros H l l' F. induction F; constructor; auto. Qed.
 
 Lemma slot_pre b r nr : slot b r nr -> pre_slot b r nr.
-Proof. intros (A & _ & C). split; assumption. Qed.
+Proof. intros (A & _ & C & D). split; [|split]; assumption. Qed.
 
 Lemma clu_blocks alnlen mx rows : Forall (row_ok alnlen mx) rows -> forall cnt b recs h,
   (Forall2 (pre_slot b) recs rows \/ (recs = [] /\ b = 0%nat)) ->
@@ -253,9 +259,21 @@ Qed.
 Lemma rows_of_slots alnlen nbk : forall recs rows, (alnlen <= 60 * nbk)%nat ->
   Forall (fun nr => length (snd nr) = alnlen) rows -> Forall2 (slot nbk) recs rows -> rows_of recs = rows.
 Proof.
-  intros recs rows Hn Hl H. induction H as [|r nr recs rows (W & N & R) H IH]; [reflexivity|].
+  intros recs rows Hn Hl H. induction H as [|r nr recs rows (W & N & R & _) H IH]; [reflexivity|].
   inversion Hl as [|? ? L Hl']; subst. unfold rows_of in *. cbn [map]. rewrite IH by exact Hl'. f_equal.
   unfold row_of in R. rewrite N, R, firstn_all2 by lia. destruct nr; reflexivity.
+Qed.
+
+(* what the aligner receives: names and residues (kalign_run de-aligns first) *)
+Definition records_of (recs : list rrec) : list (list Z * list Z) := map (fun r => (rr_name r, rr_res r)) recs.
+Definition residues_of (rows : list (list Z * list Z)) : list (list Z * list Z) := map (fun nr => (fst nr, filter isalpha (snd nr))) rows.
+
+Lemma records_of_slots alnlen nbk : forall recs rows, (alnlen <= 60 * nbk)%nat ->
+  Forall (fun nr => length (snd nr) = alnlen) rows -> Forall2 (slot nbk) recs rows -> records_of recs = residues_of rows.
+Proof.
+  intros recs rows Hn Hl H. induction H as [|r nr recs rows (W & N & _ & RS) H IH]; [reflexivity|].
+  inversion Hl as [|? ? L Hl']; subst. unfold records_of, residues_of in *. cbn [map]. rewrite IH by exact Hl'. f_equal.
+  rewrite N, RS, firstn_all2 by lia. reflexivity.
 Qed.
 
 Lemma contains_app_l w : forall x hay, contains hay w = true -> contains (x ++ hay) w = true.
@@ -302,7 +320,8 @@ Theorem read_one_written_clu version rows alnlen :
   clean_line version -> rows <> [] ->
   Forall (fun nr => name_ok (fst nr) /\ good_row (snd nr) /\ length (snd nr) = alnlen /\ (length (fst nr) <= 200)%nat) rows ->
   (1 <= alnlen)%nat ->
-  exists m, read_one (write_clu version alnlen rows) = Some (Some m) /\ rows_of (m_recs m) = rows.
+  exists m, read_one (write_clu version alnlen rows) = Some (Some m) /\ rows_of (m_recs m) = rows /\
+            records_of (m_recs m) = residues_of rows.
 Proof.
   intros Hv Hne Hall Hlen.
   pose proof (rows_ok_mx alnlen rows Hall) as Hok.
@@ -333,8 +352,9 @@ Proof.
     + cbn [app]. constructor; [|constructor; [constructor|apply blocks2_clean; exact Hok]].
       unfold clu_header. apply clean_app; [|apply clean_app; [exact Hv|]];
         (apply Forall_forall; intros c Hc; vm_compute in Hc; repeat (destruct Hc as [<-|Hc]; [vm_compute; reflexivity|]); contradiction).
-  - cbn [m_recs]. apply (rows_of_slots alnlen nbk recs rows); [apply Hnb| |exact Hs].
-    eapply Forall_impl; [|exact Hall]. cbn beta. tauto.
+  - assert (HL : Forall (fun nr => length (snd nr) = alnlen) rows) by (eapply Forall_impl; [|exact Hall]; cbn beta; tauto).
+    cbn [m_recs]. split; [apply (rows_of_slots alnlen nbk recs rows); [apply Hnb|exact HL|exact Hs]|].
+    apply (records_of_slots alnlen nbk recs rows); [apply Hnb|exact HL|exact Hs].
 Qed.
 
 (* ---- MSF ---------------------------------------------------------------------------------------------------- *)
@@ -506,7 +526,7 @@ Proof.
   induction rows_suf as [|nr rows' IH]; intros recs_pre recs_suf h Hok Hs.
   - inversion Hs; subst. exists [], h. cbn [map fold_left length]. rewrite Nat.add_0_r. split; [reflexivity|constructor].
   - inversion Hok as [|? ? Hnr Hok']; subst. inversion Hs as [|r ? rs ? Hr Hrs]; subst.
-    pose proof Hnr as (Hname & Hgood & Hlen & L200 & Lmx). destruct Hr as (W & N & R).
+    pose proof Hnr as (Hname & Hgood & Hlen & L200 & Lmx). destruct Hr as (W & N & R & RS).
     cbn [map fold_left]. rewrite (line_shape alnlen mx b nr Hnr).
     rewrite msf_step_line; [|destruct Hname as (Hne & _); exact Hne|apply name_ok_nospace; exact Hname|lia|exact N].
     set (r1 := feed_line _ _).
@@ -516,8 +536,9 @@ Proof.
       replace (mx + 5 - length (fst nr))%nat with (S (mx + 4 - length (fst nr))) in F by lia.
       specialize (F W ltac:(lia) (chunk_rowchars alnlen b (snd nr) Hgood)). cbv zeta in F.
       assert (E : r1 = feed_line r (repeat space (S (mx + 4 - length (fst nr))) ++ chunk_of alnlen b (snd nr))) by reflexivity.
-      rewrite E. destruct F as (F1 & F2 & F3). split; [exact F1|split; [rewrite F3; exact N|]].
-      rewrite F2, R. symmetry. apply chunk_step. exact Hlen. }
+      rewrite E. destruct F as (F1 & F2 & F3 & F4). split; [exact F1|split; [rewrite F3; exact N|split]].
+      - rewrite F2, R. symmetry. apply chunk_step. exact Hlen.
+      - rewrite F4, RS, <- filter_app. f_equal. symmetry. apply chunk_step. exact Hlen. }
     destruct (IH (recs_pre ++ [r1]) rs (count_line h (32 :: repeat space (mx + 4 - length (fst nr)) ++ chunk_of alnlen b (snd nr))) Hok' Hrs)
       as (recs'' & h'' & Hf & Hall).
     rewrite app_length in Hf. cbn [length] in Hf. rewrite <- app_assoc in Hf. cbn [app] in Hf.
@@ -576,14 +597,15 @@ Qed.
 
 Theorem read_msf_written basename date protein rows alnlen :
   title_inert (msf_title basename date protein alnlen rows) -> msf_rows_ok alnlen rows -> (1 <= alnlen)%nat ->
-  exists m, read_msf (msf_lines basename date protein alnlen rows) = Some m /\ rows_of (m_recs m) = rows.
+  exists m, read_msf (msf_lines basename date protein alnlen rows) = Some m /\ rows_of (m_recs m) = rows /\
+            records_of (m_recs m) = residues_of rows.
 Proof.
   intros (_ & T1 & T2) Hrows Hlen. destruct (msf_rows_ok_mx alnlen rows Hrows) as [Hm Hok].
   set (nbk := ((alnlen + 59) / 60)%nat).
   assert (Hnb : (alnlen <= 60 * nbk)%nat).
   { unfold nbk. pose proof (Nat.div_mod (alnlen + 59) 60 ltac:(lia)). pose proof (Nat.mod_upper_bound (alnlen + 59) 60 ltac:(lia)). lia. }
   assert (Hslots : Forall2 (slot 0) (map (fun nr => empty_rec (fst nr)) rows) rows).
-  { clear. induction rows as [|nr rows IH]; cbn [map]; constructor; [|exact IH]. split; [reflexivity|split; reflexivity]. }
+  { clear. induction rows as [|nr rows IH]; cbn [map]; constructor; [|exact IH]. split; [reflexivity|split; [reflexivity|split; reflexivity]]. }
   destruct (msf_blocks alnlen (max_name_len rows) rows Hok nbk 0%nat _ (repeat 0 128) Hslots) as (recs & h & Hf & Hs).
   cbn [Nat.add] in Hs.
   exists (mkM recs h). split.
@@ -597,8 +619,9 @@ Proof.
     assert (Hsl : has (bytes_of_string "//"%string) "//"%string = true) by (vm_compute; reflexivity).
     cbn [msf_header]. rewrite Hsl. cbn [fold_left]. rewrite msf_step_blank.
     unfold blocks2. fold nbk. rewrite Hf. reflexivity.
-  - cbn [m_recs]. apply (rows_of_slots alnlen nbk recs rows); [exact Hnb| |exact Hs].
-    eapply Forall_impl; [|exact Hrows]. cbn beta. tauto.
+  - assert (HL : Forall (fun nr => length (snd nr) = alnlen) rows) by (eapply Forall_impl; [|exact Hrows]; cbn beta; tauto).
+    cbn [m_recs]. split; [apply (rows_of_slots alnlen nbk recs rows); [exact Hnb|exact HL|exact Hs]|].
+    apply (records_of_slots alnlen nbk recs rows); [exact Hnb|exact HL|exact Hs].
 Qed.
 
 Lemma clean_b l : forallb (fun c => negb (iscntrl c)) l = true -> clean_line l.
@@ -622,7 +645,8 @@ Qed.
 Theorem read_one_written_msf basename date protein rows alnlen :
   title_inert (msf_title basename date protein alnlen rows) -> msf_rows_ok alnlen rows -> (1 <= alnlen)%nat ->
   existsb hint_clu (firstn 100 (msf_lines basename date protein alnlen rows)) = false ->
-  exists m, read_one (write_msf basename date protein alnlen rows) = Some (Some m) /\ rows_of (m_recs m) = rows.
+  exists m, read_one (write_msf basename date protein alnlen rows) = Some (Some m) /\ rows_of (m_recs m) = rows /\
+            records_of (m_recs m) = residues_of rows.
 Proof.
   intros Ht Hrows Hlen Hclu.
   destruct (read_msf_written basename date protein rows alnlen Ht Hrows Hlen) as (m & Hr & Hm).
@@ -757,7 +781,8 @@ Qed.
 Theorem msf_roundtrip basename date protein rows alnlen :
   title_inert (msf_title basename date protein alnlen rows) -> hint_clu (msf_title basename date protein alnlen rows) = false ->
   msf_rows_ok alnlen rows -> (1 <= alnlen)%nat ->
-  exists m, read_one (write_msf basename date protein alnlen rows) = Some (Some m) /\ rows_of (m_recs m) = rows.
+  exists m, read_one (write_msf basename date protein alnlen rows) = Some (Some m) /\ rows_of (m_recs m) = rows /\
+            records_of (m_recs m) = residues_of rows.
 Proof.
   intros Ht Hc Hrows Hlen. apply read_one_written_msf; try assumption.
   apply existsb_firstn_false. apply msf_lines_no_clu; assumption.
